@@ -202,7 +202,7 @@ type RecWallet struct {
 // FundV2Transaction implements rhp4.Wallet.
 func (rw *RecWallet) FundV2Transaction(txn *types.V2Transaction, amount types.Currency, useUnconfirmed bool) (types.ChainIndex, []int, error) {
 	ci, ts, err := rw.Wallet.FundV2Transaction(txn, amount, useUnconfirmed)
-	if err == nil {
+	if err == nil && len(ts) > 0 {
 		rw.mu.Lock()
 		rw.Funded++
 		rw.mu.Unlock()
